@@ -604,6 +604,11 @@ class HelperInliner:
                             done = True
                         else:
                             self.failed.add(q)
+                if not done and isinstance(st, ast.For) and isinstance(st.iter, ast.Call) and not st.orelse:
+                    g = self._inline_generator(st, fn, cls, qual)
+                    if g is not None:
+                        block[i:i + 1] = g
+                        done = True
                 if done:
                     continue  # re-examine the spliced statements
                 # expression-level helpers inside this statement
@@ -615,6 +620,108 @@ class HelperInliner:
         process(fn.body)
         ast.fix_missing_locations(fn)
         return fn
+
+    def _inline_generator(self, loop: ast.For, fn: ast.FunctionDef, cls: ast.ClassDef | None, qual: str) -> list[ast.stmt] | None:
+        """``for T in helper(args): BODY`` with a new generator helper: the helper's body with every ``yield E`` replaced
+        by ``T = E; BODY``.  Valid when the yields are statements in tail position of their loop (so that `continue` in
+        BODY resumes the helper exactly where a resumed generator would), the helper has no return, and BODY has no
+        break of its own level."""
+        r = self.resolve(loop.iter, fn, cls, qual)  # type: ignore[arg-type]
+        if r is None:
+            return None
+        callee, implicit, q = r
+        ys = [n for n in ast.walk(callee) if isinstance(n, (ast.Yield, ast.YieldFrom))]
+        if not ys or any(isinstance(n, ast.Return) for n in ast.walk(callee)):
+            return None
+
+        def own_level(stmts: list[ast.stmt], kinds: tuple) -> bool:
+            for s in stmts:
+                if isinstance(s, kinds):
+                    return True
+                if isinstance(s, (ast.For, ast.While, ast.FunctionDef, ast.ClassDef)):
+                    continue
+                for sub in _blocks(s):
+                    if own_level(sub, kinds):
+                        return True
+            return False
+
+        if own_level(loop.body, (ast.Break,)):
+            return None
+        has_continue = own_level(loop.body, (ast.Continue,))
+        b = self._bind(callee, implicit, loop.iter)  # type: ignore[arg-type]
+        if b is None:
+            return None
+        body = copy.deepcopy([s for s in callee.body if not (isinstance(s, ast.Expr) and isinstance(s.value, ast.Constant))])
+        self.counter += 1
+        sfx = f"__g{self.counter}"
+
+        class YF(ast.NodeTransformer):  # yield from E  ->  for _t in E: yield _t   (plain iteration, no send())
+            def visit_Expr(self, node: ast.Expr) -> ast.AST:
+                if isinstance(node.value, ast.YieldFrom):
+                    t = ast.Name(id="_yf", ctx=ast.Store())
+                    y = ast.Expr(value=ast.Yield(value=ast.Name(id="_yf", ctx=ast.Load())))
+                    return ast.fix_missing_locations(ast.copy_location(ast.For(target=t, iter=node.value.value, body=[y], orelse=[]), node))
+                return node
+
+            def visit_FunctionDef(self, node):
+                return node
+
+        body = [YF().visit(s) for s in body]
+        if any(isinstance(n, ast.YieldFrom) for s in body for n in ast.walk(s)):
+            return None
+        assigned = set(_stores(ast.Module(body=body, type_ignores=[])))
+        pre: list[ast.stmt] = []
+        subst: dict[str, ast.expr] = {}
+        rename: dict[str, str] = {}
+        for p, x in b[0].items():
+            if (isinstance(x, (ast.Name, ast.Constant)) or dotted(x) is not None) and p not in assigned:
+                subst[p] = x
+            else:
+                rename[p] = p + sfx
+                pre.append(ast.copy_location(ast.Assign(targets=[ast.Name(id=p + sfx, ctx=ast.Store())], value=copy.deepcopy(x)), loop))
+        for n in assigned:
+            if n not in b[0]:
+                rename[n] = n + sfx
+        body = [_Subst(subst).visit(_Rename(rename).visit(s)) for s in body]
+        ok = True
+
+        def splice(stmts: list[ast.stmt], tail: bool, in_loop: bool) -> list[ast.stmt]:
+            nonlocal ok
+            out: list[ast.stmt] = []
+            for k, s in enumerate(stmts):
+                last = k == len(stmts) - 1
+                if isinstance(s, ast.Expr) and isinstance(s.value, ast.Yield):
+                    if has_continue and not (last and tail and in_loop):
+                        ok = False
+                    val = s.value.value if s.value.value is not None else ast.Constant(value=None)
+                    out.append(ast.copy_location(ast.Assign(targets=[copy.deepcopy(loop.target)], value=val), loop))
+                    out.extend(copy.deepcopy(loop.body))
+                    continue
+                if any(isinstance(n, ast.Yield) for n in ast.walk(s)):
+                    if isinstance(s, (ast.For, ast.While)):
+                        s.body = splice(s.body, True, True)
+                        if any(isinstance(n, ast.Yield) for x in s.orelse for n in ast.walk(x)):
+                            ok = False
+                    elif isinstance(s, ast.If):
+                        s.body = splice(s.body, tail and last, in_loop)
+                        s.orelse = splice(s.orelse, tail and last, in_loop)
+                    else:
+                        ok = False
+                out.append(s)
+            return out
+
+        new = splice(body, True, False)
+        if not ok:
+            self.failed.add(q)
+            return None
+        for s in pre + new:
+            for n in ast.walk(s):
+                if hasattr(n, "lineno"):
+                    n.lineno = getattr(loop, "lineno", n.lineno)
+                    n.end_lineno = getattr(loop, "end_lineno", None)
+            ast.fix_missing_locations(s)
+        self.inlined.add(q)
+        return pre + new
 
     def _inline_exprs(self, st: ast.stmt, fn: ast.FunctionDef, cls: ast.ClassDef | None, qual: str) -> None:
         outer = self
@@ -717,6 +824,13 @@ def lower(fn: ast.FunctionDef, tuples: bool = True, ifexp: bool = True) -> ast.F
                 t2 = _replace_node(st.test, w, ast.copy_location(ast.Name(id=w.target.id, ctx=ast.Load()), w))
                 brk = ast.copy_location(ast.If(test=ast.UnaryOp(op=ast.Not(), operand=t2), body=[ast.copy_location(ast.Break(), st)], orelse=[]), st)
                 new = [ast.copy_location(ast.While(test=ast.Constant(value=True), body=[pre, brk] + st.body, orelse=[]), st)]
+            elif tuples and isinstance(st, ast.Expr) and isinstance(st.value, ast.Call) and isinstance(st.value.func, ast.Attribute) \
+                    and st.value.func.attr == "setdefault" and len(st.value.args) == 2 and not st.value.keywords \
+                    and all(is_pure_expr(x) for x in st.value.args) and is_pure_expr(st.value.func.value):
+                # d.setdefault(k, v) with the result discarded  ==  if k not in d: d[k] = v
+                d_, k_, v_ = st.value.func.value, st.value.args[0], st.value.args[1]
+                store = ast.Assign(targets=[ast.Subscript(value=copy.deepcopy(d_), slice=copy.deepcopy(k_), ctx=ast.Store())], value=v_)
+                new = [ast.copy_location(ast.If(test=ast.Compare(left=k_, ops=[ast.NotIn()], comparators=[d_]), body=[ast.copy_location(store, st)], orelse=[]), st)]
             elif isinstance(st, (ast.Assign, ast.AnnAssign)) and isinstance(st.value, ast.IfExp):
                 def mk(v: ast.expr) -> ast.stmt:
                     c = copy.copy(st)
@@ -752,6 +866,12 @@ def normalize(fn: ast.FunctionDef, cls: ast.ClassDef | None, qual: str, inliner:
     new = _StripCasts().visit(new)
     if inliner is not None:
         new = inliner.inline(new, cls, qual)
+        # nested helpers of later origin that were inlined at every use are dropped
+        for st in list(new.body):
+            if isinstance(st, ast.FunctionDef) and inliner.is_new(f"{qual}.{st.name}") and f"{qual}.{st.name}" in inliner.inlined:
+                used = any(isinstance(n, ast.Name) and n.id == st.name and isinstance(n.ctx, ast.Load) for x in new.body if x is not st for n in ast.walk(x))
+                if not used:
+                    new.body.remove(st)
     new = lower(new, tuples=True, ifexp=False)
     new = inline_locals(new, keep)
     new = lower(new, tuples=True, ifexp=True)
